@@ -90,7 +90,7 @@ class ChargingPriceUpdate(SimulationUpdateFunction):
                     else:
                         stepper = maybe_stepper
                 else:
-                    with charging_path.open() as f:
+                    with charging_path.open(encoding="utf-8-sig") as f:
                         reader = iter(tuple(DictReader(f)))
                     stepper = DictReaderStepper.from_iterator(reader, "time", parser=SimTime.build)
 
